@@ -515,7 +515,7 @@ def c_notes(spec):
         if n.get("tie_next"):
             links[("next", n["id"])] = oid[n["tie_next"]]
             links[("prev", n["tie_next"])] = oid[n["id"]]
-    return clist([c_note(n, oid[n["id"]], links) for n in spec["notes"]])
+    return "(%s : list note)" % clist([c_note(n, oid[n["id"]], links) for n in spec["notes"]])
 
 
 def c_opts(o):
@@ -540,7 +540,8 @@ def c_obs(r, names):
 
 
 def c_amap(tab, width):
-    return clist([ctuple([cz(t), ctuple([cz(x) for x in v])]) for t, v in sorted(tab.items())])
+    ty = "Z * (Z * Z)" if width == 2 else "Z * (Z * Z * Z)"
+    return "(%s : list (%s))" % (clist([ctuple([cz(t), ctuple([cz(x) for x in v])]) for t, v in sorted(tab.items())]), ty)
 
 
 def c_maps(maps):
@@ -548,7 +549,7 @@ def c_maps(maps):
 
 
 def c_qmap(tab):
-    return clist([ctuple([cz(t), core.cfloat_q(v)]) for t, v in sorted(tab.items())])
+    return "(%s : list (Z * Q))" % clist([ctuple([cz(t), core.cfloat_q(v)]) for t, v in sorted(tab.items())])
 
 
 def all_maps(part, spec, rests=False):
@@ -609,14 +610,14 @@ def stage_parts(ctx, n_parts, n_random_opts, full_every, mp_ok, coq_per_part):
                     continue
                 _, arr = call_note_array(part, opts)
                 names = arr.dtype.names
-                obs = clist([c_obs(r, names) for r in rows])
+                obs = "(%s : list obs)" % clist([c_obs(r, names) for r in rows])
                 coq_terms.append("(%s, %s, %s, %s, false, %s)" % (c_notes(spec), c_maps(am), cz(spec_divs(spec)), c_opts(opts), obs))
                 coq_cases.append({"kind": "part", "spec": spec, "opts": opts, "rests": False})
                 if len(tc_terms) < len(coq_terms) // 3 + 1 and rows:
                     heads = spec_heads(spec)
                     times = [n["s"] for n, _ in heads] + [n["s"] + d for n, d in heads]
                     qm, bm = time_maps(part, times)
-                    tcs = clist([ctuple([cz(r["onset_div"]), cz(r["duration_div"]),
+                    tcs = "(%s : list (Z * Z * (Q * Q * Q * Q)))" % clist([ctuple([cz(r["onset_div"]), cz(r["duration_div"]),
                                          ctuple([core.cfloat_q(r[c]) for c in ("onset_quarter", "duration_quarter", "onset_beat", "duration_beat")])])
                                  for r in rows])
                     tc_terms.append("(%s, (maps_of_q %s %s [] [] []), %s, false, %s)" % (c_notes(spec), c_qmap(qm), c_qmap(bm), cz(spec_divs(spec)), tcs))
@@ -640,7 +641,7 @@ def stage_parts(ctx, n_parts, n_random_opts, full_every, mp_ok, coq_per_part):
                 if am["errors"]:
                     continue
                 _, arr = call_note_array(part, opts, rests=True)
-                obs = clist([c_obs(r, arr.dtype.names) for r in rows])
+                obs = "(%s : list obs)" % clist([c_obs(r, arr.dtype.names) for r in rows])
                 o7 = dict(opts)
                 o7["include_divs_per_quarter"] = False
                 coq_terms.append("(%s, %s, %s, %s, true, %s)" % (c_notes(spec), c_maps(am), cz(spec_divs(spec)), c_opts(o7), obs))
@@ -856,8 +857,8 @@ def stage_scores(ctx, n_scores, mp_ok, full_every):
                     continue
                 o = dict(opts)
                 o["include_divs_per_quarter"] = True
-                obs = clist([c_obs(r, names) for r in rows])
-                terms.append("(%s, %s, %s, %s)" % (clist(pterms), cbool(uniq), c_opts(o), obs))
+                obs = "(%s : list obs)" % clist([c_obs(r, names) for r in rows])
+                terms.append("((%s : list (list note * maps * Z)), %s, %s, %s)" % (clist(pterms), cbool(uniq), c_opts(o), obs))
                 cases.append({"kind": "score", "specs": specs, "opts": opts, "uniq": uniq, "via": via})
         if si < 1:
             ctx.sample({"score_specs": specs})
@@ -1054,8 +1055,9 @@ def stage_inverse(ctx, n_cases):
                               % (int(d), ons[i], dus[i], int(na["onset_div"][i]), int(na["duration_div"][i])),
                               {"kind": "inverse", "case": case, "message": "create_divs_from_beats inexact"})
                 continue
-            terms.append("(%s, %s, (%s, %s, %s))" % (clist([cq(x) for x in ons]), clist([cq(x) for x in dus]), cz(int(d)),
-                                                       clist([cz(int(x)) for x in na["onset_div"]]), clist([cz(int(x)) for x in na["duration_div"]])))
+            terms.append("((%s : list Q), (%s : list Q), (%s, (%s : list Z), (%s : list Z)))"
+                         % (clist([cq(x) for x in ons]), clist([cq(x) for x in dus]), cz(int(d)),
+                            clist([cz(int(x)) for x in na["onset_div"]]), clist([cz(int(x)) for x in na["duration_div"]])))
             cases.append({"kind": "inverse", "case": case})
         elif case["kind"] == "div":
             d = case["divs"]
@@ -1187,7 +1189,7 @@ def run(ctx):
                        "cyclic tie chains excluded (Python recursion would not terminate)",
                        "parts of one generated score share the metrical layout, so beat order = division order",
                        "inverse direction: non-negative onsets, denominators <= 16, arrays without 'voice' carry no zero-duration notes (voice estimation is C17)"]
-    ok, why = ctx.coq_props(expect_min=12)
+    ok, why = ctx.coq_props(expect_min=16)
     if not ok:
         ctx.log("coq_props failed: " + why[:2000])
     mp_ok = probe_metrical_position()
